@@ -153,6 +153,13 @@ theorem Inv2.micro {j0 jo : JobObj} {sp s s' : Sys} (hb : Base j0 s) (h : Inv2 j
       have := (sync_good sp jo hwf hpsp hjo hgsp).1
       rw [hd] at this
       exact this.of_status_eq rfl
+  | updStatusOn s1 hs1 hs hok =>
+    rcases apiUpdateJobStatus_spec s { jo with rv := updatedRv s jo } { jo with job := (sync sp jo).2.1 } with hs | ⟨c, hc', _, hs⟩
+    · exact h.frame hs
+    · refine h.jobWrite hs ?_
+      have := (sync_good sp jo hwf hpsp hjo hgsp).1
+      rw [hd] at this
+      exact this.of_status_eq rfl
 
 theorem Inv2.micros {j0 jo : JobObj} {sp s s' : Sys} (hb : Base j0 s) (h : Inv2 j0 s) (hc : s.jobCache = some jo)
     (hwf : WF2 j0 sp.d) (hpsp : PodsGood j0 sp) (hgsp : Good j0 sp.d jo.job) (hd : sp.d = s.d)
